@@ -1,13 +1,17 @@
 """C03 — Level coupling keeps the coarse path in the previous level's law (telescoping)   (DESIGN.md §4 C03).
 
-C (correspondence): the real couplings (CouplingMarkovChain, CouplingProcessLevyCopula) after 1..3 real `next_level` calls
-against the Lean model RpylibModel/Model/Coupling.lean run by Drivers/C03.lean.  The model is fed the masses the real
-`mass` returns at exactly the intervals / (index set, box) pairs the model asks for; cell boundaries, half cells, corner
-enumeration, probabilities, flows, sums, level bookkeeping are the model's own.
+C (correspondence): the real couplings (CouplingMarkovChain, CouplingProcessLevyCopula in d = 2 and 3 and on grids whose axes
+differ, CouplingSDE) after 1..3 real `next_level` calls against the Lean model RpylibModel/Model/Coupling.lean run by
+Drivers/C03.lean.  The model is fed the masses the real `mass` returns at exactly the intervals / (index set, box) pairs the
+model asks for; cell boundaries, half cells, corner enumeration, probabilities, flows, sums, level bookkeeping (also the record
+CouplingSDE.next_level keeps) are the model's own.
 S (oracle, independent of the model): the telescoping identity evaluated on the implementation
     sum over fine states of  rate(x) * P(coupling sends x to y)  =  rate of y in a chain built on the un-refined grid,
 lambda_coarse = lambda_fine - (rate sent to the origin), even increments copied / odd ones moved to an adjacent coarse state,
-coarse diffusion coefficient and frozen drift = those of a stand-alone level-(l-1) chain, one Brownian vector for both.
+coarse diffusion coefficient and frozen drift = those of a stand-alone level-(l-1) chain, one Brownian vector for both; the same
+identity with the jump laws of the chains as built by each of the six 1-d sampling methods through >= 3 levels; for the SDE
+coupling the driver drift / diffusion coefficient / maximum step used by each component at every level, also read off what the
+real Euler recursion consumes on a scripted driver path.
 """
 from __future__ import annotations
 
@@ -28,6 +32,7 @@ from ..common import w, wl, wll, rd, rdl, rdll, close, fr, Infra
 from rpylib.distribution.sampling import SamplingMethod
 from rpylib.distribution.samplingfactory import create_q_vector
 from rpylib.grid.grid import Coordinates, CoordinateND
+from rpylib.grid.spatial import CTMCCredit
 from rpylib.montecarlo.path import MLMCPath
 from rpylib.process.coupling.couplingmarkovchain import CouplingMarkovChain, CouplingSimulation
 from rpylib.process.coupling.couplinglevycopula import CouplingProcessLevyCopula, CouplingLevyCopulaSimulation
@@ -40,29 +45,43 @@ from rpylib.product.underlying import Spot
 RULE = ("1-d structured: model families (HEM, Merton, VG, CGMY in all five activity branches; Levy and exponential-of-Levy) x "
         "parameter draws x the six grid constructors x h x {INVERSION, BINARYSEARCHTREEADAPTED1D} x 1..3 real next_level calls "
         "with a real Product and MLMC path managers; 1-d synthetic: random dyadic axes x piecewise-constant dyadic densities "
-        "(zero-mass cells included); 2-d: margins from the families x {Clayton, independent, dependent} x fixed 3/5-point "
-        "coarse grids (5x5 / 9x9 fine) x {INVERSION, BINARYSEARCHTREEADAPTED}, every fine increment of every parity; the Lean "
-        "negation witness replayed with TableMeasure margins; SDE coupling: 1-d drivers, jump-time mode with maximum step. non-trivial = coupling built, >= 1 next_level call succeeded, "
+        "(zero-mass cells included); 1-d methods: each of the six sampling methods CouplingMarkovChain accepts x random family x "
+        "{fixed, geometric-with-bounds, credit} grids x 3..4 successive next_level calls; 2-d: margins from the families x {Clayton, "
+        "independent, dependent} x fixed 3/5-point coarse grids (5x5 / 9x9 fine; 3 levels up to 17x17 for both n-d methods) x "
+        "{INVERSION, BINARYSEARCHTREEADAPTED}, every fine increment of every parity; 3-d: the same on 3^3 -> 5^3 (thorough: 9^3), all "
+        "seven parities; grids whose axes differ: the Lean witness axes and CTMCCredit with two distinct thresholds; the Lean negation "
+        "witnesses replayed with TableMeasure margins; SDE coupling: 1-d drivers, jump-time mode with maximum step, 1..3 levels, one "
+        "infinite-variation CGMY driver through 3 levels in every run. non-trivial = coupling built, >= 1 next_level call succeeded, "
         "fine grid has >= 5 points per axis; distinct = distinct (model, parameters, grid arguments, method, levels)")
 NOT_PROVED = [
-    "additivity / non-negativity of the concrete families' integrate() and of LevyCopulaModel.mass (hypotheses IsMass, IsBoxMass2) "
-    "are C09 / C11 / C12's subject",
-    "n-d theorems are written out for d = 2 on grids whose axes are equal (what every constructor builds); d = 3 and the mirrored "
-    "axis indexing of left_point/right_point on projected coordinates (model mirrors it) are compared / oracle-checked only",
-    "telescoping for dependent copulas is FALSE of the code (theorem telescoping_nd_counterexample, known finding "
-    "C03-copula-margin-coupling): only corner_probs_sum_one and the independent case are theorems",
+    "additivity / non-negativity of the concrete families' integrate() and of LevyCopulaModel.mass and its margins (hypotheses IsMass, "
+    "IsBoxMass2, IsBoxMass3) are C09 / C11 / C12's subject",
+    "n-d theorems are written out for d = 2 (equal axes; two different axes: what holds is proved - first coordinate odd, first-axis "
+    "telescoping - and the rest refuted by the kernel-decided witness axes_counterexample, known finding "
+    "C03-projected-coordinates-read-first-axes) and d = 3 on equal axes (all seven parities); d >= 4 and d = 3 on unequal axes are not "
+    "stated; the telescoping theorems for d = 2, 3 cover measures carried by the coordinate axes (independent components): states "
+    "on an axis, and off the axes (rate 0)",
+    "telescoping for dependent copulas is FALSE of the code (theorem telescoping_nd_counterexample, known findings "
+    "C03-copula-margin-coupling, -3d): only corner_probs_sum_one(_3d) and the independent case are theorems",
     "payoff expectations are not modelled: 'the multilevel sum telescopes' is the corollary of the law equality, which is stated "
     "and proved at the level of jump rates, diffusion coefficient, drift and shared Brownian increments",
-    "the SDE coupling (couplingsde.py) delegates jumps and diffusion to the two couplings above (checked on its driver coupling "
-    "after real CouplingSDE.next_level calls); its Euler recursion is C16's subject",
+    "SDE coupling: the record kept by CouplingSDE.next_level (driver drift, diffusion coefficient, maximum step of each component) is "
+    "modelled and proved (sde_levels_induct) with the driver chain's coefficients as a function of the grid; its Euler recursion is "
+    "C16's subject; copula-driven SDE couplings are covered through the copula coupling only",
+    "that each sampler realises the law it is handed is C02's subject: the per-method oracle uses the probability vector given to the "
+    "array samplers, the inversion sampler's own state probabilities and the adapted tree's own walk; the n-d adapted tree is "
+    "exercised through the rates model.mass(cell) it targets",
     "float rounding of probabilities and sums (compared at 2^-40 relative; oracle 1e-12 * intensity)",
 ]
 ASSUMPTIONS = [
     "masses evaluated by the real mass() at the model's (exact rational) boundaries converted to the nearest float are the "
     "masses the implementation uses: fl((a+b)/2) = 0.5*(a+b) barring underflow",
     "coupling uniforms are patched at p*(1 -/+ 2^-20) around the model's breakpoints; u exactly on a breakpoint is a don't-care",
+    "3-d: levels whose fine grid has more than 9 points per axis, and the third level of the 3-level 2-d chains, are oracle-checked "
+    "only (the model's per-coarse-state sum over all fine states is quadratic in the number of states)",
 ]
-TRUSTED = ["scipy.special functions inside the families' integrate() (C09)", "copula volume formulas (C11/C12)"]
+TRUSTED = ["scipy.special functions inside the families' integrate() (C09)", "copula volume formulas (C11/C12)",
+           "scipy.linalg.sqrtm inside the copula chain's diffusion matrix (C04): non-finite entries are carried, not judged"]
 LEANCHECKER = True
 
 warnings.filterwarnings("ignore", category=scipy.linalg.LinAlgWarning)
@@ -88,6 +107,16 @@ def axis_ok(ax, o):
 
 def relclose(py, lean, floor=Fraction(0)):
     return close(py, lean, scale=max(abs(fr(lean)), fr(floor)))
+
+
+def sdiv(a, b):
+    """a / b as the implementation's numpy floats compute it (0/0 = nan, x/0 = inf) instead of raising"""
+    return float(np.float64(a) / np.float64(b))
+
+
+def frs(x):
+    """fr, but None for a non-finite float (never equal to a model value)"""
+    return fr(x) if math.isfinite(float(x)) else None
 
 
 def finite(xs):
@@ -127,7 +156,10 @@ def guarded(ctx, d, cls, fn, *a, **k):
         if not any("/rpylib/" in f.filename for f in frames):
             raise
         where = [f"{f.filename.split('/rpylib/')[-1]}:{f.lineno}" for f in frames if "/rpylib/" in f.filename][-3:]
-        ctx.fail("oracle", "c03.coupling.raises", d, {"exception": repr(e)[:400], "where": where}, cls=cls)
+        via = "<".join(f.name for f in frames if "/rpylib/" in f.filename)
+        ctx.fail("oracle", "c03.coupling.raises", d, {"exception": repr(e)[:400], "where": where, "call_chain": via},
+                 cls=dict(cls, exception=type(e).__name__, raised_in=[f.name for f in frames if "/rpylib/" in f.filename][-2]
+                          if len([f for f in frames if "/rpylib/" in f.filename]) >= 2 else via))
 
 
 class ScriptedUniform:
@@ -555,28 +587,189 @@ def array_sampler_probe(ctx, name):
         np.random.set_state(st)
 
 
+# ------------------------------------------------------------------------------------------------- every sampling method, >= 3 levels
+class VectorCapture:
+    """records the probability vector `create_sampling_method` hands to the array samplers (ALIAS, TABLE, BINARYSEARCHTREE,
+    HUFFMANNTREE) while a chain is being built: that vector is the jump law of the chain built with that method"""
+    NAMES = ["AliasMethod", "TableMethod", "BinarySearchTree", "HuffmanTree"]
+
+    def __init__(self):
+        import rpylib.distribution.samplingfactory as sf
+        self.sf, self.saved, self.vectors = sf, {}, []
+
+    def __enter__(self):
+        for name in self.NAMES:
+            cls_ = getattr(self.sf, name)
+            self.saved[name] = cls_
+
+            def ctor(pvec, states, _cls=cls_):
+                self.vectors.append(np.array(pvec, dtype=float).copy())
+                return _cls(pvec, states)
+            setattr(self.sf, name, ctor)
+        return self
+
+    def __exit__(self, *exc):
+        for name, cls_ in self.saved.items():
+            setattr(self.sf, name, cls_)
+        return False
+
+
+def bsta1d_law(smp, n):
+    """the law BinarySearchTreeAdapted1D.sample_with_u realises, read off its own tree walk (same interval masses, same order)"""
+    axis = smp.axis
+    law = [0.0] * n
+
+    def walk(left, right, budget):
+        if budget <= 0:
+            return
+        if left == right:
+            law[left] += budget
+            return
+        middle = (left + right) // 2
+        a = 0.5 * (axis[max(0, left - 1)] + axis[left])
+        b = 0.5 * (axis[middle] + axis[min(len(axis) - 1, middle + 1)])
+        pl = float(smp._compute_probability(a, b))
+        walk(left, middle, min(pl, budget))
+        walk(min(right, middle + 1), right, budget - pl)
+    pleft = float(smp._proba_left_axis)
+    walk(*smp._coordinates_left_axis, pleft)
+    walk(*smp._coordinates_right_axis, 1.0 - pleft)
+    return law
+
+
+def chain_law(mc, captured, o, n):
+    """jump law (over grid indices) of the chain `mc` as its own sampler is given / computes it"""
+    smp = mc.sampling
+    name = type(smp).__name__
+    if name in ("AliasMethod", "TableMethod", "BinarySearchTree", "HuffmanTree"):
+        vec = captured[-1]
+        lo, hi = mc.model.levy_triplet.nu.support() if hasattr(mc.model.levy_triplet.nu, "support") else (-1, 1)
+        if len(vec) != n or not lo < 0 < hi:
+            raise Infra("array sampler: unexpected state indexing")
+        return [float(x) for x in vec]
+    if name == "InversionMethod":
+        return [0.0 if k == o else float(smp.probability_to_jump_to_state(k - o)) for k in range(n)]
+    if name == "BinarySearchTreeAdapted1D":
+        return bsta1d_law(smp, n)
+    raise Infra(f"unknown sampler {name}")
+
+
+def methods_probe(ctx, d):
+    """S: the telescoping identity with the jump laws of the chains *as built with the given sampling method* (the vector handed to
+    the array samplers, the inversion sampler's own state probabilities, the adapted tree's own walk), through d['L'] >= 3 successive
+    next_level calls; the coarse law of level l is the fine law this very coupling had at level l - 1"""
+    method = {**ARRAY_SAMPLERS, **METHODS_1D}[d["method"]]
+    model = zoo.make_exp(d["family"], d["params"]) if d.get("exp") else zoo.make_levy(d["family"], d["params"])
+    try:
+        g = grid_from_desc(model, d["grid"])
+    except Exception as e:          # constructor rejected these arguments (C13's subject)
+        ctx.branches[f"c03.ctor_raises:{d['grid']['kind']}:{type(e).__name__}"] += 1
+        return
+    cls = dict(stream="methods", method=d["method"], family=d["family"], kind=d["grid"]["kind"], dimension=1)
+    prod = the_product()
+    with VectorCapture() as cap:
+        cp = CouplingMarkovChain(model, method, g)
+        prod.update(cp.fine_process.process_representation)
+        cp.initialisation(prod)
+        cp.pre_computation(2, prod)
+        ax = [float(x) for x in cp.grid.axes[0]]
+        o = int(cp.grid.origin_coordinate.value)
+        if not axis_ok(ax, o):
+            ctx.branches["c03.methods.skipped_not_wellformed"] += 1
+            return
+        law_prev, lam_prev = chain_law(cp.fine_process, cap.vectors, o, len(ax)), float(cp.fine_process.intensity_of_jumps)
+        for level in range(1, d["L"] + 1):
+            cp.next_level(2, None, prod)
+            g_ = cp.grid
+            ax = [float(x) for x in g_.axes[0]]
+            o = int(g_.origin_coordinate.value)
+            n = len(ax)
+            dl = dict(d, level=level)
+            if not axis_ok(ax, o):
+                ctx.branches["c03.methods.skipped_not_wellformed"] += 1
+                return
+            law_f, lam_f = chain_law(cp.fine_process, cap.vectors, o, n), float(cp.fine_process.intensity_of_jumps)
+            ctx.count("c03.methods.level", dl, nontrivial=n >= 5, branch=f"{d['method']}:L{level}")
+            qf = [lam_f * x for x in law_f]
+            qc = [lam_prev * x for x in law_prev]
+            mass = cp.fine_process.model.mass
+            P = {k: float(CouplingSimulation.probability_to_right_jump(g_, mass, k - o)) for k in range(1, n, 2) if qf[k] > 0.0}
+            coupled = coupled_rates_1d(len(qc), qf, P)
+            tol = ORACLE_REL * max(lam_f, 1e-300)
+            op = o // 2
+            if len(qc) != (n + 1) // 2 or cp.level != level:
+                ctx.fail("oracle", "c03.methods.nesting", dl, {"fine_states": n, "coarse_states": len(qc), "level": cp.level}, cls=cls)
+                return
+            for j in range(len(qc)):
+                if j != op and not abs(coupled[j] - qc[j]) <= tol:
+                    ctx.fail("oracle", "c03.methods.telescoping", dl,
+                             {"coarse_state": j, "coupled_coarse_rate": coupled[j], "rate_of_the_level_l_minus_1_chain": qc[j],
+                              "fine_rates": [qf[k] for k in range(max(0, 2 * j - 1), min(n, 2 * j + 2))],
+                              "p_right": [P.get(2 * j - 1), P.get(2 * j + 1)], "lambda_fine": lam_f, "sampler": type(cp.fine_process.sampling).__name__},
+                             cls=cls)
+                    return
+            # the coarse chain's jumps: total rate lambda_{l-1} (sum of its law = 1 up to rounding), fine: lambda_l
+            if not (abs(sum(law_f) - 1) <= 1e-9 and abs(lam_prev * sum(law_prev) - (lam_f * sum(law_f) - coupled[op])) <= 1e-9 * lam_f):
+                ctx.fail("oracle", "c03.methods.intensity", dl, {"sum_of_fine_law": sum(law_f), "lambda_fine": lam_f, "lambda_coarse": lam_prev,
+                                                                "rate_sent_to_origin": coupled[op]}, cls=cls)
+                return
+            law_prev, lam_prev = law_f, lam_f
+    ctx.branches[f"c03.methods.done:{d['method']}:L{d['L']}"] += 1
+
+
+def run_methods(ctx):
+    rng = ctx.rng
+    names = list(ARRAY_SAMPLERS) + list(METHODS_1D)
+    for name in names:
+        for i in range(ctx.n(2, 8)):
+            fam = rng.choice(zoo.FAMILIES)
+            params = zoo.draw_params(rng, fam) if rng.random() < 0.7 else {}
+            # the first chain of every method lives on a grid whose constructor cannot reject its arguments
+            kind = "fixed" if i == 0 else rng.choice(["fixed", "geometric_bounds", "credit"])
+            gd = dict(kind=kind, h=rng.choice([0.2, 0.1]))
+            if kind == "fixed":
+                gd["nb"] = rng.choice([5, 9])
+            elif kind == "geometric_bounds":
+                gd.update(nb=rng.choice([2, 3]), tr=[-rng.choice([0.5, 1.0]), rng.choice([0.75, 1.5])])
+            else:
+                gd.update(a=-rng.choice([0.3, 0.5]), sym=True)
+            d = dict(stream="methods", family=fam, params=params, exp=rng.random() < 0.5, grid=gd, L=rng.choice([3, 3, 4]), method=name)
+            guarded(ctx, d, dict(stream="methods", method=name, dimension=1), methods_probe, ctx, d)
+
+
 # ------------------------------------------------------------------------------------------------- SDE coupling (1-d driver)
 def sde_probe(ctx, d, corr=True):
-    """CouplingSDE delegates the jumps and the diffusion to the coupling of its driver (jump-time mode with a maximum step):
-    the same oracle / correspondence on `driver_coupling_process` after real CouplingSDE.next_level calls"""
+    """CouplingSDE: the record kept by next_level (which driver drift / diffusion coefficient / maximum step each component uses)
+    at EVERY level 1..L against (S) fresh chains of level l and l-1 built independently of the object under test and what the real
+    Euler recursion consumes on a scripted driver path, (C) the model's `sdeLevelAt`; the jumps and the diffusion of the driver
+    coupling (jump-time mode with a maximum step) go through the same oracle / correspondence as the plain 1-d coupling."""
     from rpylib.model.levydrivensde.levydrivensde import LevyDrivenSDEModel, Constant
+    from rpylib.montecarlo.path import StochasticJumpPath
     from rpylib.process.coupling.couplingsde import CouplingSDE
     from rpylib.product.payoff import PayoffOnTheFly
     driver = zoo.make_levy(d["family"], d["params"])
-    model = LevyDrivenSDEModel(driver=driver, x0=1.0, a=Constant(m=1, d=1, constant=0.5))
+    a_const = 0.5
+    model = LevyDrivenSDEModel(driver=driver, x0=1.0, a=Constant(m=1, d=1, constant=a_const))
     g, _ = zoo.make_grid("fixed", None, d["h"], nb_of_points=d["nb"], dimension=1)
     method = METHODS_1D[d["method"]]
     prod = Product(payoff_underlying=Spot(), payoff=PayoffOnTheFly(lambda x: x), maturity=1.0)
     cls = dict(stream="sde", kind="fixed", family=d["family"], dimension=1)
+    bg = float(driver.blumenthal_getoor_index())
 
     class PM:
         def update(self, _):
             pass
+    base = ([float(x) for x in g.axes[0]], int(g.origin_coordinate.value), float(g.h))
     cps = CouplingSDE(model=model, grid=g, method=method)
     cps.initialisation(prod)
     cps.pre_computation(2, prod)
     pms = [PM()]
     prod_d = the_product()
+    scalar = lambda x: float(np.ravel(np.asarray(x, dtype=float))[0])
+    fresh0 = MarkovChainProcess(driver, method, copy.deepcopy(cps.driver_coupling_process.grid))
+    fresh0.initialisation(prod_d)
+    chains = [fresh0]
+    impl_rows = []
     for level in range(1, d["L"] + 1):
         cp = cps.driver_coupling_process
         g_prev = copy.deepcopy(cp.grid)
@@ -585,18 +778,77 @@ def sde_probe(ctx, d, corr=True):
         cps.next_level(2, pms, prod)
         standalone = MarkovChainProcess(driver, method, copy.deepcopy(cp.grid))
         standalone.initialisation(prod_d)
-        ctx.count("c03.sde.level", dict(d, level=level), nontrivial=True, branch=f"{d['family']}:L{level}")
+        chains.append(standalone)
+        dl = dict(d, level=level)
+        ctx.count("c03.sde.level", dl, nontrivial=True, branch=f"{d['family']}:L{level}")
         if not oracle_level_1d(ctx, d, cls, cp, g_prev, coarse, standalone, None, level):
             return
-        # the drivers' drifts the Euler scheme of the two components uses: level l and level l-1
-        dh, d2h = float(np.ravel(cps.mc_drift_h)[0]), float(np.ravel(cps.mc_drift_2h)[0])
-        wh, w2h = float(np.ravel(standalone.process_drift())[0]), float(np.ravel(coarse.process_drift())[0])
-        if not (math.isclose(dh, wh, rel_tol=1e-12, abs_tol=1e-300) and math.isclose(d2h, w2h, rel_tol=1e-12, abs_tol=1e-300)):
-            ctx.fail("oracle", "c03.sde.drift", dict(d, level=level), {"mc_drift_h": dh, "level_l_chain": wh, "mc_drift_2h": d2h,
-                                                                      "level_l_minus_1_chain": w2h}, cls=cls)
+        # ---- S: the record. Fine component: level-l chain; coarse component: level-(l-1) chain; every level
+        dh, d2h = scalar(cps.mc_drift_h), scalar(cps.mc_drift_2h)
+        wh, w2h = scalar(standalone.process_drift()), scalar(coarse.process_drift())
+        same = lambda x, y: math.isclose(x, y, rel_tol=1e-12, abs_tol=1e-300)
+        if not (same(dh, wh) and same(d2h, w2h)) or cps.level != level:
+            ctx.fail("oracle", "c03.sde.drift", dl, {"mc_drift_h": dh, "level_l_chain": wh, "mc_drift_2h": d2h, "level_l_minus_1_chain": w2h,
+                                                     "level": cps.level, "drifts_of_all_levels_so_far": [scalar(c.process_drift()) for c in chains]},
+                     cls=cls)
             return
+        eps_want = float(cp.grid.h) ** bg
+        sim = cp._path_coupling_simulation
+        if not (same(float(cps.epsilon), eps_want) and getattr(sim, "epsilon", None) == cps.epsilon):
+            ctx.fail("oracle", "c03.sde.epsilon", dl, {"epsilon": float(cps.epsilon), "h_of_level_l^BG": eps_want,
+                                                       "epsilon_of_the_driver_simulation": getattr(sim, "epsilon", None)}, cls=cls)
+            return
+        # ---- S, black box: what the Euler recursion consumes. A scripted driver path without jumps / diffusion and the constant
+        # coefficient a: the drift path of component c ends at a * (driver drift used by c) * T
+        times = np.array([0.0, 0.25, 1.0])
+
+        def fake():
+            return StochasticJumpPath(times.copy(), np.zeros((2, 3)), np.zeros((2, 3)))
+        cp.simulate_one_path_with_coupling = fake
+        try:
+            out = cps.simulate_one_path_with_coupling()
+        finally:
+            del cp.simulate_one_path_with_coupling
+        ends = [scalar(np.asarray(out.drift)[c][..., -1]) for c in (0, 1)]
+        if not (math.isclose(ends[0], a_const * wh, rel_tol=1e-12, abs_tol=1e-15) and math.isclose(ends[1], a_const * w2h, rel_tol=1e-12, abs_tol=1e-15)):
+            ctx.fail("oracle", "c03.sde.drift_consumed", dl, {"drift_path_end_fine_coarse": ends, "a": a_const,
+                                                              "a_x_level_l_chain_drift": a_const * wh,
+                                                              "a_x_level_l_minus_1_chain_drift": a_const * w2h}, cls=cls)
+            return
+        # ---- S, black box: the driver path the recursion consumes has the coupled diffusion: same w, coefficients of level l / l-1
+        st = np.random.get_state()
+        try:
+            np.random.seed(20260929 + level)
+            path = cp.simulate_one_path_with_coupling()
+        finally:
+            np.random.set_state(st)
+        dp = np.asarray(path.diffusion_path, dtype=float)
+        sf, sc = float(standalone.equivalent_diffusion_coefficient), float(coarse.equivalent_diffusion_coefficient)
+        if dp.shape[0] != 2 or not np.allclose(dp[0] * sc, dp[1] * sf, rtol=1e-10, atol=1e-300):
+            ctx.fail("oracle", "c03.sde.same_brownian", dl, {"fine_diffusion_path": dp[0][:6].tolist(), "coarse_diffusion_path": dp[1][:6].tolist(),
+                                                             "coefficient_level_l": sf, "coefficient_level_l_minus_1": sc}, cls=cls)
+            return
+        ctx.branches[f"c03.sde.levels_compared:L{level}"] += 1
+        impl_rows.append([float(level), dh, d2h, float(cp.equivalent_diffusion_coefficient_fine), float(cp.equivalent_diffusion_coefficient_coarse),
+                          float(cp.grid.h), float(cp.grid.h), float(int(cp.grid.origin_coordinate.value)), d2h,
+                          float(cp.equivalent_diffusion_coefficient_coarse)])
         if corr and not corr_level_1d(ctx, d, cls, cp, g_prev, coarse, "[]", level):
             return
+    # ---- C: the record of every level against M's sdeLevelAt (fed the fresh chains' coefficients, level by level)
+    if corr and impl_rows:
+        diffs = [float(c.equivalent_diffusion_coefficient) for c in chains]
+        drifts = [scalar(c.process_drift()) for c in chains]
+        ax0, o0, h0 = base
+        out = ctx.lean(f"sde {wl(ax0)} {o0} {w(h0)} [] {len(impl_rows)} {wl(diffs)} {wl(drifts)}").split(" ")
+        m_rows = rdll(out[1])
+        ok = len(m_rows) == len(impl_rows)
+        for row, mrow in zip(impl_rows, m_rows):
+            # epsilon's h: compare through the power actually stored (column 5 is grid.h; epsilon itself was checked above)
+            ok = ok and len(mrow) == len(row) and all(fr(x) == y for x, y in zip(row, mrow))
+        if not ok:
+            ctx.fail("corr", "c03.sde.levels.model", dict(d, levels=len(impl_rows)),
+                     {"name": "Drivers/C03 sde (sdeLevelAt) vs CouplingSDE after 1..L next_level calls", "impl": impl_rows,
+                      "model": [[str(x) for x in r] for r in m_rows]}, cls=cls)
 
 
 # ------------------------------------------------------------------------------------------------- n-d (copula coupling)
@@ -629,10 +881,10 @@ def nd_state_cells(g, states):
     return cells
 
 
-def copula_case(rng, thorough):
+def copula_case(rng, thorough, dim=2):
     fams = ["hem", "merton", "vg", "cgmy"]
     margins = []
-    for _ in range(2):
+    for _ in range(dim):
         f = rng.choice(fams)
         p = zoo.draw_params(rng, f, y_branch=rng.choice([-0.5, 0.0, 0.5] + ([1.5] if thorough and rng.random() < 0.15 else []))
                             if f == "cgmy" else None) if rng.random() < 0.7 else {}
@@ -640,26 +892,33 @@ def copula_case(rng, thorough):
     cop = rng.choice(zoo.COPULAS)
     cop_kw = dict(theta=rng.choice([0.3, 0.7, 1.0, 2.5]), eta=rng.choice([0.1, 0.3, 0.5, 0.9])) if cop == "clayton" else {}
     nb = rng.choice([3, 5])
+    if dim == 3:
+        # 5^3 fine states after one refinement of a 3^3 grid; 9^3 (refine twice, or a 5^3 grid once) only now and then:
+        # the model's sum over all fine states per coarse state costs ~35 s there
+        big = thorough and rng.random() < 0.1
+        nb = 5 if big and rng.random() < 0.5 else 3
+        return dict(stream="copula", dim=3, margins=margins, copula=cop, copula_kw=cop_kw, h=rng.choice([0.2, 0.1, 0.05]), nb=nb,
+                    L=2 if big and nb == 3 else 1, method=rng.choice(list(METHODS_ND)))
     return dict(stream="copula", margins=margins, copula=cop, copula_kw=cop_kw, h=rng.choice([0.2, 0.1, 0.05]), nb=nb,
                 L=rng.choice([1, 2]) if nb == 3 else 1, method=rng.choice(list(METHODS_ND)))
 
 
-def nd_level(ctx, d, cls, cm, cp, g_prev, coarse, standalone, pms, level, corr):
-    """S + C for one level of a 2-d copula coupling; returns False after a failure"""
+def nd_level(ctx, d, cls, cm, cp, g_prev, coarse, standalone, pms, level, corr, lean=True):
+    """S + C for one level of a d-dimensional copula coupling (d = 2, 3); returns False after a failure"""
     rng = ctx.rng
     g = cp.grid
-    dim = 2
     dl = dict(d, level=level)
     axes = zoo.axis_list(g)
     axes_p = zoo.axis_list(g_prev)
+    dim = len(axes)
     o = int(list(g.origin_coordinate)[0])
     op = int(list(g_prev.origin_coordinate)[0])
     n, n_c = len(axes[0]), len(axes_p[0])
     if any(ax[0::2] != axp for ax, axp in zip(axes, axes_p)) or o != 2 * op or cp.level != level:
         ctx.fail("oracle", "c03.nd.nesting", dl, {"fine_even": axes[0][0::2], "coarse": axes_p[0], "origins": [o, op]}, cls=cls)
         return False
-    states = list(itertools.product(range(n), repeat=dim))
-    cstates = list(itertools.product(range(n_c), repeat=dim))
+    states = list(itertools.product(*[range(len(ax)) for ax in axes]))
+    cstates = list(itertools.product(*[range(len(ax)) for ax in axes_p]))
     origin, corigin = (o,) * dim, (op,) * dim
     cells, ccells = nd_state_cells(g, states), nd_state_cells(g_prev, cstates)
     fmass, cmass = cp.fine_process.model.mass, coarse.model.mass
@@ -671,6 +930,10 @@ def nd_level(ctx, d, cls, cm, cp, g_prev, coarse, standalone, pms, level, corr):
     cstate = sim._CouplingLevyCopulaSimulation__coupling_state
     saved_u = cp._uniform
     probs, flows = {}, {cs: 0.0 for cs in cstates}
+    # axes that differ (CTMCCredit with one threshold per margin): __coupling_state reads the neighbours of the k-th *projected*
+    # coordinate from axes[k]; the states whose odd coordinates are not a prefix are read from the wrong axis (recorded finding)
+    uneq = any(ax != axes[0] for ax in axes)
+    misread_seen, misread_bad, degenerate = [], None, False
     try:
         for cs in states:
             inc = tuple(c - o for c in cs)
@@ -689,6 +952,37 @@ def nd_level(ctx, d, cls, cm, cp, g_prev, coarse, standalone, pms, level, corr):
                 # never drawn: mass 0 up to the rounding of the inclusion-exclusion of tail integrals (its total_mass may be 0
                 # or noise of either sign); what it could contribute is below the oracle's tolerance
                 ctx.branches["c03.nd.zero_mass_states_skipped"] += 1
+                continue
+            if uneq and S != list(range(len(S))):
+                cp._uniform = ScriptedUniform([float("nan")])        # `nan <= probability` is False: the loop visits every corner
+                with MassRecorder(cp.model) as rec:
+                    try:
+                        cstate(inc)
+                    except ValueError:
+                        pass
+                if len(rec.calls) != 1 + 2 ** len(S) or not rec.calls[0] > NOISE_REL * lam or not finite(rec.calls):
+                    degenerate = True                      # total_mass of the mis-read box is 0 / noise: 0/0 in the code, nothing to compare
+                    ctx.branches["c03.nd.axes.misread_state_with_zero_total_mass"] += 1
+                    continue
+                total, pm = rec.calls[0], rec.calls[1:]
+                p = [x / total for x in pm]
+                probs[cs] = p
+                misread_seen.append(cs)
+                cum = 0.0
+                for q, sg in zip(p, itertools.product([-1, 1], repeat=len(S))):
+                    tgt = list(cs)
+                    for k, s_ in zip(S, sg):
+                        tgt[k] += s_
+                    flows[tuple(c // 2 for c in tgt)] += rate[cs] * q
+                    if q > 2.0 ** -18 and cum + q / 2 < 1 and misread_bad is None:
+                        cp._uniform = ScriptedUniform([cum + q / 2])
+                        v = [float(x) for x in cstate(inc)]
+                        if v != [axes[k][tgt[k]] for k in range(dim)]:
+                            misread_bad = {"increment": inc, "u": cum + q / 2, "returned": v, "adjacent_coarse_state": [axes[k][tgt[k]] for k in range(dim)],
+                                           "corner_probabilities": p, "axes_read_for_the_neighbours": "axes[position in the projected tuple]"}
+                    cum += q
+                if misread_bad is None and abs(math.fsum(pm) - total) > ORACLE_REL * lam:
+                    misread_bad = {"increment": inc, "corner_masses": pm, "total_mass": total, "sum_of_probabilities": math.fsum(p)}
                 continue
             cp._uniform = ScriptedUniform([2.0])
             with MassRecorder(cp.model) as rec:
@@ -776,7 +1070,7 @@ def nd_level(ctx, d, cls, cm, cp, g_prev, coarse, standalone, pms, level, corr):
         cp._uniform = saved_u
     # ---- C first (needed to decide whether a telescoping failure mirrors the model)
     mirrors, m_coupled = None, None
-    if corr:
+    if corr and lean:
         rows = ctx.lean(f"qnd {wll(axes)} {o}")[1:-1].split(";")
         vals = []
         for r in rows:
@@ -815,7 +1109,7 @@ def nd_level(ctx, d, cls, cm, cp, g_prev, coarse, standalone, pms, level, corr):
                                                               "impl": crate[cs], "model": str(m_crate[i])}, cls=cls)
                     return False
             lam_q = fr(max(lam, 1e-300))
-            mirrors = all(close(flows[cs], m_coupled[i], scale=lam_q) for i, cs in enumerate(cstates))
+            mirrors = degenerate or all(close(flows[cs], m_coupled[i], scale=lam_q) for i, cs in enumerate(cstates))
             if not mirrors:
                 i = next(i for i, cs in enumerate(cstates) if not close(flows[cs], m_coupled[i], scale=lam_q))
                 ctx.fail("corr", "c03.nd.coupled.model", dl, {"name": "Drivers/C03 coupledRateNd vs sum of rate x corner probability", "state": list(cstates[i]),
@@ -825,12 +1119,12 @@ def nd_level(ctx, d, cls, cm, cp, g_prev, coarse, standalone, pms, level, corr):
             try:
                 live = [cs for cs in probs if all(q == 0 or q > 2.0 ** -18 for q in probs[cs])]
                 pts = []
-                for cs in rng.sample(live, min(len(live), 6)):
+                for cs in rng.sample(live, min(len(live), 6)) + [c for c in misread_seen if c in live][:4]:
                     inc = tuple(c - o for c in cs)
                     cum = list(itertools.accumulate(probs[cs]))
                     us = [rng.random()] + [c * (1 - 2.0 ** -20) for c in cum[:-1] if c > 0] + [c * (1 + 2.0 ** -20) for c in cum[:-1] if 0 < c < 0.999]
                     for u in us:
-                        if any(abs(u - c) <= c * 2.0 ** -21 for c in cum) or not 0 < u < cum[-1] * (1 - 2.0 ** -20):
+                        if any(abs(u - c) <= c * 2.0 ** -21 for c in cum) or not 0 < u < min(cum[-1], 1.0) * (1 - 2.0 ** -20):
                             ctx.excluded_small_margin += 1
                             continue
                         cp._uniform = ScriptedUniform([u])
@@ -845,16 +1139,34 @@ def nd_level(ctx, d, cls, cm, cp, g_prev, coarse, standalone, pms, level, corr):
                     ctx.branches["c03.nd.couple_points"] += len(pts)
             finally:
                 cp._uniform = saved_u
+    # ---- S: a fine jump off the coarse grid is moved to an adjacent coarse state (grids whose axes differ)
+    if uneq:
+        ctx.branches["c03.nd.axes.misread_states"] += len(misread_seen)
+        if misread_bad is not None:
+            ctx.fail("oracle", "c03.nd.odd_adjacent", dl, misread_bad, cls=dict(cls, axes_equal=False), mirrors_model=True if corr else None)
+        if degenerate:
+            ctx.branches["c03.nd.axes.telescoping_skipped_degenerate"] += 1
+            return True
     # ---- S: telescoping
     dependent = d["copula"] != "independent"
+    if uneq and not dependent:
+        # partial theorem telescoping_nd_independent_axes_partial: the coarse states of the FIRST axis still receive their rate
+        first = [cs for cs in cstates if cs != corigin and all(c == op for c in cs[1:])]
+        wf = max(first, key=lambda cs: abs(flows[cs] - crate[cs]))
+        if not abs(flows[wf] - crate[wf]) <= (tol if corr else 1e-9 * lam):
+            ctx.fail("oracle", "c03.nd.telescoping_first_axis", dl, {"coarse_state": list(wf), "coupled_coarse_rate": flows[wf],
+                                                                    "coarse_chain_rate": crate[wf], "lambda_fine": lam}, cls=dict(cls, axes_equal=False))
+            return False
+        ctx.branches["c03.nd.axes.first_axis_telescopes"] += 1
     worst = max(cstates, key=lambda cs: 0.0 if cs == corigin else abs(flows[cs] - crate[cs]))
     dev = abs(flows[worst] - crate[worst])
-    if not dependent:
+    if not dependent and not uneq:
         MAXDEV["2d"] = max(MAXDEV["2d"], dev / max(lam, 1e-300))
     if worst != corigin and not dev <= (tol if corr else 1e-9 * lam):
         ctx.fail("oracle", "c03.nd.telescoping", dl, {"coarse_state": list(worst), "coupled_coarse_rate": flows[worst],
                                                      "coarse_chain_rate": crate[worst], "relative_to_lambda": dev / max(lam, 1e-300),
-                                                     "lambda_fine": lam}, cls=dict(cls, copula_dependent=dependent), mirrors_model=mirrors)
+                                                     "lambda_fine": lam}, cls=dict(cls, copula_dependent=dependent, axes_equal=not uneq),
+                 mirrors_model=mirrors)
         ctx.branches[f"c03.nd.telescoping_fails:{d['copula']}"] += 1
         return True                                       # recorded; the rest of the level is still checked
     ctx.branches[f"c03.nd.telescoping_holds:{d['copula']}"] += 1
@@ -865,7 +1177,11 @@ def nd_level_bookkeeping(ctx, d, cls, cp, coarse, standalone, pms, level):
     dl = dict(d, level=level)
     D2, Dc = np.asarray(cp._diffusion_matrix_2h, dtype=float), np.asarray(coarse._path_simulation.diffusion_matrix, dtype=float)
     D1, Df = np.asarray(cp._diffusion_matrix_h, dtype=float), np.asarray(standalone._path_simulation.diffusion_matrix, dtype=float)
-    if not (np.allclose(D2, Dc, rtol=1e-12, atol=1e-300) and np.allclose(D1, Df, rtol=1e-9, atol=1e-300)):
+    if not (np.all(np.isfinite(Dc)) and np.all(np.isfinite(Df))):
+        # scipy.linalg.sqrtm of a singular variance matrix (e.g. CGMY margins, complete dependence, d = 3) returns inf entries:
+        # the chain's own matrix is C04's subject; the coupling must still carry exactly that matrix (inf/NaN in the same places)
+        ctx.branches["c03.nd.nonfinite_diffusion_matrix_of_the_chain(C04)"] += 1
+    if not (np.allclose(D2, Dc, rtol=1e-12, atol=1e-300, equal_nan=True) and np.allclose(D1, Df, rtol=1e-9, atol=1e-300, equal_nan=True)):
         ctx.fail("oracle", "c03.nd.diffusion", dl, {"coupling_2h": D2.tolist(), "level_l_minus_1_chain": Dc.tolist(), "coupling_h": D1.tolist(),
                                                   "level_l_chain": Df.tolist()}, cls=cls)
         return False
@@ -878,7 +1194,7 @@ def nd_level_bookkeeping(ctx, d, cls, cp, coarse, standalone, pms, level):
         return False
     ps = cp.fine_process._path_simulation
     if hasattr(ps, "_brownian_increments"):
-        wv = np.array([[0.5, -1.25, 2.0], [1.5, 0.25, -0.75]])
+        wv = np.array([[0.5, -1.25, 2.0], [1.5, 0.25, -0.75], [-0.5, 1.0, 0.125]][:D1.shape[1]])
         sq = np.array([0.5, 0.75, 0.25])
         keep = ps._brownian_increments
         ps._brownian_increments = deque([wv.tolist()])
@@ -887,7 +1203,7 @@ def nd_level_bookkeeping(ctx, d, cls, cp, coarse, standalone, pms, level):
         finally:
             ps._brownian_increments = keep
         ef, ec = np.cumsum(sq * (Df @ wv), axis=1), np.cumsum(sq * (Dc @ wv), axis=1)
-        if not (np.allclose(df, ef, rtol=1e-9, atol=1e-300) and np.allclose(dc, ec, rtol=1e-9, atol=1e-300)):
+        if not (np.allclose(df, ef, rtol=1e-9, atol=1e-300, equal_nan=True) and np.allclose(dc, ec, rtol=1e-9, atol=1e-300, equal_nan=True)):
             ctx.fail("oracle", "c03.nd.same_brownian", dl, {"fine": np.asarray(df).tolist(), "coarse": np.asarray(dc).tolist(),
                                                           "expected_fine": ef.tolist(), "expected_coarse": ec.tolist()}, cls=cls)
             return False
@@ -902,18 +1218,34 @@ def build_copula_model(d):
             m.levy_triplet.nu = zoo.TableMeasure(knots, heights)
             margins.append(m)
         return zoo.make_copula_model(margins, zoo.make_copula("dependent"))
-    margins = [zoo.make_levy(f, p) for f, p in d["margins"]]
+    margins = []
+    for f, p in d["margins"]:
+        if f == "table":                             # piecewise-constant density with exact integrals
+            m = zoo.make_levy("hem", dict(sigma=0.0))
+            m.levy_triplet.nu = zoo.TableMeasure(p["knots"], p["heights"])
+        else:
+            m = zoo.make_levy(f, p)
+        margins.append(m)
     return zoo.make_copula_model(margins, zoo.make_copula(d["copula"], **d["copula_kw"]))
 
 
 def copula_probe(ctx, d, corr=True):
-    cls = dict(stream=d["stream"], copula=d["copula"], dimension=2)
+    cls = dict(stream=d["stream"], copula=d["copula"], dimension=d.get("dim", 2))
     guarded(ctx, d, cls, _copula_probe, ctx, d, cls, corr)
 
 
 def _copula_probe(ctx, d, cls, corr):
     cm = build_copula_model(d)
-    g, _ = zoo.make_grid("fixed", None, d["h"], nb_of_points=d["nb"], dimension=2)
+    if d["stream"] == "credit":
+        try:
+            g = CTMCCredit(h=d["h"], level_a=list(d["level_a"]), model=cm, symmetric_grid=d["sym"])
+        except ValueError as e:                      # a threshold outside the truncation (C13's subject)
+            ctx.branches[f"c03.ctor_raises:credit2d:{type(e).__name__}"] += 1
+            return
+    elif d["stream"] == "axes":
+        g = zoo.CTMCGrid(h=d["h"], origin_coordinate=d["o"], axes=[np.array(a, dtype=float) for a in d["axes"]])
+    else:
+        g, _ = zoo.make_grid("fixed", None, d["h"], nb_of_points=d["nb"], dimension=d.get("dim", 2))
     method = METHODS_ND[d["method"]]
     prod = the_product()
     cp = CouplingProcessLevyCopula(cm, g, method)
@@ -927,8 +1259,10 @@ def _copula_probe(ctx, d, cls, corr):
         cp.next_level(2, pms, prod)
         standalone = MarkovChainLevyCopula(cm, copy.deepcopy(cp.grid), method)
         standalone.initialisation(prod)
-        ctx.count("c03.nd.level", dict(d, level=level), nontrivial=True, branch=f"{d['copula']}:nb{d['nb']}:L{level}:{d['method']}")
-        if not nd_level(ctx, d, cls, cm, cp, g_prev, coarse, standalone, pms, level, corr):
+        ctx.count("c03.nd.level", dict(d, level=level), nontrivial=True,
+                  branch=f"{d['stream']}:d{d.get('dim', 2)}:{d['copula']}:nb{d.get('nb', len(cp.grid.axes[0]) // 2 + 1)}:L{level}:{d['method']}")
+        # levels above d["lean_levels"] are oracle-only (the model's sum over all fine states per coarse state is too slow there)
+        if not nd_level(ctx, d, cls, cm, cp, g_prev, coarse, standalone, pms, level, corr, lean=level <= d.get("lean_levels", 99)):
             return
         if not nd_level_bookkeeping(ctx, d, cls, cp, coarse, standalone, pms, level):
             return
@@ -958,8 +1292,8 @@ def cex_probe(ctx):
             cstate((0, 1))
         except ValueError:
             pass
-    p = [x / rec.calls[0] for x in rec.calls[1:]]
-    ok = [fr(x) for x in axes[0]] == m_fine and [fr(x) for x in p] == m_probs
+    p = [sdiv(x, rec.calls[0]) for x in rec.calls[1:]]
+    ok = [fr(x) for x in axes[0]] == m_fine and [frs(x) for x in p] == m_probs
     # coupled rate of the coarse state (0, 1) = fine index (2, 4); coarse rate from the chain on the un-refined grid
     states = list(itertools.product(range(5), repeat=2))
     cells = nd_state_cells(cp.grid, states)
@@ -987,10 +1321,10 @@ def cex_probe(ctx):
             for k, s_ in zip(S, sg):
                 tgt[k] += s_
             if tuple(tgt) == (2, 4):
-                flow += r * q / rec.calls[0]
+                flow += r * sdiv(q, rec.calls[0])
     ccells = nd_state_cells(g_prev, [(1, 2)])
     crate = float(coarse.model.mass(*ccells[(1, 2)]))
-    mirrors = ok and fr(flow) == m_coupled and fr(crate) == m_coarse
+    mirrors = ok and frs(flow) == m_coupled and frs(crate) == m_coarse
     if not mirrors:
         ctx.fail("corr", "c03.nd.cex.model", d, {"name": "Lean witness telescoping_nd_counterexample vs the implementation", "impl_coupled": flow,
                                                "impl_coarse": crate, "impl_corner_probs": p, "model": out[1:4]}, cls=cls)
@@ -999,22 +1333,140 @@ def cex_probe(ctx):
                                                     "corner_probs_of_fine_state_(0,1/2)": p}, cls=dict(cls, copula_dependent=True), mirrors_model=mirrors)
 
 
+AXES_CEX = dict(stream="axes", axes=[[-2.0, -1.0, 0.0, 1.0, 2.0], [-1.0, -0.5, 0.0, 0.25, 0.5]], o=2, h=1.0,
+                margins=[("table", dict(knots=[-4.0, 4.0], heights=[1.0])), ("table", dict(knots=[-4.0, 4.0], heights=[1.0]))],
+                copula="independent", copula_kw={}, L=1, method="INVERSION")
+
+
+def axes_cex_probe(ctx):
+    """the Lean negation witness `axes_counterexample` (two different axes, Lebesgue margins) replayed on the implementation"""
+    d = dict(AXES_CEX)
+    cls = dict(stream="axes", copula="independent", dimension=2)
+    out = ctx.lean("cexaxes").split(" ")
+    m_ca, m_cb, m_fa, m_fb, m_probs, m_val = rdl(out[0]), rdl(out[1]), rdl(out[2]), rdl(out[3]), rdl(out[4]), rdl(out[5])
+    m_c48, m_r24, m_c84, m_r42 = rd(out[6]), rd(out[7]), rd(out[8]), rd(out[9])
+    if [fr(x) for x in d["axes"][0]] != m_ca or [fr(x) for x in d["axes"][1]] != m_cb:
+        raise Infra("Drivers/C03 cexaxes: the witness axes of the model and of the harness differ")
+    cm = build_copula_model(d)
+    g = zoo.CTMCGrid(h=d["h"], origin_coordinate=d["o"], axes=[np.array(a, dtype=float) for a in d["axes"]])
+    prod = the_product()
+    cp = CouplingProcessLevyCopula(cm, g, SamplingMethod.INVERSION)
+    cp.initialisation(prod)
+    cp.pre_computation(2, prod)
+    g_prev = copy.deepcopy(cp.grid)
+    coarse = MarkovChainLevyCopula(cm, g_prev, SamplingMethod.INVERSION)
+    cp.next_level(2, None, prod)
+    ctx.count("c03.nd.cexaxes", d, nontrivial=True)
+    axes = zoo.axis_list(cp.grid)
+    cstate = cp._path_coupling_simulation._CouplingLevyCopulaSimulation__coupling_state
+    cp._uniform = ScriptedUniform([float("nan")])
+    with MassRecorder(cp.model) as rec:
+        try:
+            cstate((0, 3))
+        except ValueError:
+            pass
+    p = [sdiv(x, rec.calls[0]) for x in rec.calls[1:]]
+    cp._uniform = ScriptedUniform([0.75])
+    v = [float(x) for x in cstate((0, 3))]
+    # coupled rate of the coarse states (0, 1/2) = fine (4, 8) and (2, 0) = fine (8, 4)
+    states = list(itertools.product(range(9), repeat=2))
+    cells = nd_state_cells(cp.grid, states)
+    fm = cp.fine_process.model.mass
+    flow = {(4, 8): 0.0, (8, 4): 0.0}
+    for cs in states:
+        if cs == (4, 4):
+            continue
+        r = float(fm(*cells[cs]))
+        if r <= 0:
+            continue
+        inc = (cs[0] - 4, cs[1] - 4)
+        S = [k for k in range(2) if inc[k] % 2]
+        if not S:
+            if cs in flow:
+                flow[cs] += r
+            continue
+        cp._uniform = ScriptedUniform([float("nan")])
+        with MassRecorder(cp.model) as rec:
+            try:
+                cstate(inc)
+            except ValueError:
+                pass
+        for q, sg in zip(rec.calls[1:], itertools.product([-1, 1], repeat=len(S))):
+            tgt = list(cs)
+            for k, s_ in zip(S, sg):
+                tgt[k] += s_
+            if tuple(tgt) in flow:
+                flow[tuple(tgt)] += r * sdiv(q, rec.calls[0])
+    ccells = nd_state_cells(g_prev, [(2, 4), (4, 2)])
+    crate = {c: float(coarse.model.mass(*ccells[c])) for c in ccells}
+    mirrors = ([fr(x) for x in axes[0]] == m_fa and [fr(x) for x in axes[1]] == m_fb and [frs(x) for x in p] == m_probs
+               and [frs(x) for x in v] == m_val and frs(flow[(4, 8)]) == m_c48 and frs(crate[(2, 4)]) == m_r24
+               and frs(flow[(8, 4)]) == m_c84 and frs(crate[(4, 2)]) == m_r42)
+    if not mirrors:
+        ctx.fail("corr", "c03.nd.cexaxes.model", d, {"name": "Lean witness axes_counterexample vs the implementation", "impl_corner_probs": p,
+                                                   "impl_value": v, "impl_coupled": [flow[(4, 8)], flow[(8, 4)]],
+                                                   "impl_coarse": [crate[(2, 4)], crate[(4, 2)]], "model": out[4:]}, cls=cls)
+    # S: the fine state (0, 3/8) must be moved to (0, 1/4) or (0, 1/2); the first axis is fine (partial theorem)
+    if v not in ([0.0, axes[1][6]], [0.0, axes[1][8]]) or abs(sum(p) - 1) > 1e-12:
+        ctx.fail("oracle", "c03.nd.odd_adjacent", d, {"increment": [0, 3], "u": 0.75, "returned": v,
+                                                     "adjacent_coarse_states": [[0.0, axes[1][6]], [0.0, axes[1][8]]], "corner_probabilities": p},
+                 cls=dict(cls, axes_equal=False), mirrors_model=mirrors)
+    if flow[(8, 4)] != crate[(4, 2)]:
+        ctx.fail("oracle", "c03.nd.telescoping_first_axis", d, {"coarse_state": [4, 2], "coupled_coarse_rate": flow[(8, 4)],
+                                                               "coarse_chain_rate": crate[(4, 2)]}, cls=dict(cls, axes_equal=False))
+
+
+def credit_case(rng, thorough):
+    fams = ["hem", "merton", "vg", "cgmy"]
+    margins = []
+    for _ in range(2):
+        f = rng.choice(fams)
+        p = zoo.draw_params(rng, f, y_branch=rng.choice([-0.5, 0.0, 0.5]) if f == "cgmy" else None) if rng.random() < 0.7 else {}
+        margins.append((f, p))
+    cop = rng.choice(zoo.COPULAS)
+    cop_kw = dict(theta=rng.choice([0.3, 0.7, 1.0, 2.5]), eta=rng.choice([0.1, 0.3, 0.5, 0.9])) if cop == "clayton" else {}
+    a = rng.sample([-0.25, -0.3, -0.35, -0.4, -0.5], 2)
+    return dict(stream="credit", margins=margins, copula=cop, copula_kw=cop_kw, h=rng.choice([0.1, 0.05]), level_a=a,
+                sym=bool(thorough and rng.random() < 0.5), L=1, method=rng.choice(list(METHODS_ND)))
+
+
 def run_nd(ctx, corr=True):
     rng = ctx.rng
     if corr:
         guarded(ctx, dict(stream="cex"), dict(stream="cex", dimension=2), cex_probe, ctx)
+        guarded(ctx, dict(AXES_CEX), dict(stream="axes", dimension=2), axes_cex_probe, ctx)
+    # grids whose axes differ: the witness axes through the generic level check, then CTMCCredit with one threshold per margin
+    copula_probe(ctx, dict(AXES_CEX), corr=corr)
+    copula_probe(ctx, dict(stream="credit", margins=[("hem", {}), ("merton", {})], copula="independent", copula_kw={}, h=0.1,
+                           level_a=[-0.5, -0.3], sym=False, L=1, method="INVERSION"), corr=corr)
+    for _ in range(ctx.n(2, 30)):
+        copula_probe(ctx, credit_case(rng, ctx.thorough), corr=corr)
     # every copula at least once, then random draws
     fixed = [dict(stream="copula", margins=[("hem", {}), ("merton", {})], copula=c, copula_kw=(dict(theta=0.7, eta=0.3) if c == "clayton" else {}),
                   h=0.1, nb=5, L=1, method="BINARYSEARCHTREEADAPTED") for c in zoo.COPULAS]
+    # d = 3: every copula once on 3^3 -> 5^3 (all seven parities of the increment occur), then random draws
+    fixed += [dict(stream="copula", dim=3, margins=[("hem", {}), ("merton", {}), ("vg", {})], copula=c,
+                   copula_kw=(dict(theta=0.7, eta=0.3) if c == "clayton" else {}), h=0.1, nb=3, L=1, method=mth)
+              for c, mth in zip(zoo.COPULAS, ["INVERSION", "BINARYSEARCHTREEADAPTED", "INVERSION"])]
     for d in fixed:
         copula_probe(ctx, d, corr=corr)
     for _ in range(ctx.n(22, 300)):
         copula_probe(ctx, copula_case(rng, ctx.thorough), corr=corr)
+    for _ in range(ctx.n(2, 40)):
+        copula_probe(ctx, copula_case(rng, ctx.thorough, dim=3), corr=corr)
+    # both n-d sampling methods through 3 successive next_level calls (3x3 -> 17x17), the third level oracle-only
+    for mth, cop in zip(METHODS_ND, ["independent", "clayton"]) if not ctx.thorough else itertools.product(METHODS_ND, zoo.COPULAS):
+        f1, f2 = rng.choice(["hem", "merton", "vg", "cgmy"]), rng.choice(["hem", "merton", "vg"])
+        copula_probe(ctx, dict(stream="copula", margins=[(f1, {}), (f2, {})], copula=cop,
+                               copula_kw=(dict(theta=rng.choice([0.7, 2.5]), eta=rng.choice([0.3, 0.9])) if cop == "clayton" else {}),
+                               h=0.2, nb=3, L=3, lean_levels=2, method=mth), corr=corr)
 
 
 def replay_nd(ctx, d):
     if d.get("stream") == "cex":
         cex_probe(ctx)
+    elif d.get("stream") == "axes" and "level" not in d:
+        axes_cex_probe(ctx)
     else:
         copula_probe(ctx, dict(d, margins=[tuple(m) for m in d["margins"]]))
 
@@ -1028,11 +1480,17 @@ def run(ctx, corr=True):
     if corr:
         for name in list(ARRAY_SAMPLERS) + list(METHODS_1D):
             array_sampler_probe(ctx, name)
+    # SDE coupling: one CGMY driver with y >= 1 (infinite variation: the diffusion coefficient and the drift change with the level)
+    # through 3 levels in every run, then random drivers with 1..3 levels
+    d = dict(stream="sde", family="cgmy", params=zoo.draw_params(rng, "cgmy", y_branch=rng.choice([1.0, 1.5])), h=0.2, nb=5, L=3,
+             method=rng.choice(list(METHODS_1D)))
+    guarded(ctx, d, dict(stream="sde", dimension=1), sde_probe, ctx, d, corr=corr)
     for _ in range(ctx.n(4, 40)):
         fam = rng.choice(zoo.FAMILIES)
         d = dict(stream="sde", family=fam, params=zoo.draw_params(rng, fam) if rng.random() < 0.7 else {}, h=rng.choice([0.2, 0.1]),
-                 nb=rng.choice([5, 9]), L=rng.randint(1, 2), method=rng.choice(list(METHODS_1D)))
+                 nb=rng.choice([5, 9]), L=rng.randint(1, 3), method=rng.choice(list(METHODS_1D)))
         guarded(ctx, d, dict(stream="sde", dimension=1), sde_probe, ctx, d, corr=corr)
+    run_methods(ctx)
     run_nd(ctx, corr=corr)
     ctx.notes.append(f"largest oracle residual / lambda: 1-d {MAXDEV['1d']:.2e}, 2-d independent {MAXDEV['2d']:.2e}, "
                      f"|sum of corner masses - total| / lambda {MAXDEV['corner']:.2e} (threshold {ORACLE_REL})")
@@ -1060,7 +1518,9 @@ def replay(ctx, rec):
         array_sampler_probe(ctx, d["method"])
     elif s == "sde":
         sde_probe(ctx, d)
-    elif s in ("copula", "cex"):
+    elif s == "methods":
+        methods_probe(ctx, d)
+    elif s in ("copula", "cex", "axes", "credit"):
         replay_nd(ctx, d)
     else:
         raise Infra(f"unknown replay record stream {s!r}")
